@@ -252,4 +252,22 @@ theorem taintLoop_dry_tracker (o : Oracle) (nowSec : Int) (effect : String) (cs 
       refine ⟨?_, this.2.1, this.2.2⟩
       rw [this.1]; simp
 
+/-- **Dry mode writes nothing (untaint)**: the model's dry untaint loop issues no call — empty journal, oracle index untouched —
+    for every candidate list, amount and tracker. -/
+theorem untaintLoop_dry_quiet (o : Oracle) (cs : List Node) :
+    ∀ (k need : Nat) (tr : List String),
+      (untaintLoop o true k cs need tr).j = [] ∧ (untaintLoop o true k cs need tr).k = k := by
+  induction cs with
+  | nil => intro k need tr; simp [untaintLoop]
+  | cons c cs ih =>
+    intro k need tr
+    by_cases hn : need = 0
+    · simp [untaintLoop, hn]
+    · by_cases he : tr.contains c.name = true
+      · simp only [untaintLoop, hn, if_false, if_true, he]
+        exact ih k (need - 1) (removeFirst c.name tr)
+      · have he' : tr.contains c.name = false := by simpa using he
+        simp only [untaintLoop, hn, if_false, if_true, he', Bool.false_eq_true]
+        exact ih k need tr
+
 end Esc.P
